@@ -2,6 +2,7 @@ package sim
 
 import (
 	"fmt"
+	"runtime"
 	"testing"
 )
 
@@ -151,6 +152,54 @@ func runDomains(t *testing.T, rc *RunCtx) {
 				before = after
 			}
 		}
+	}
+	// A third of the runs end with two or three generic multisign requests in flight at once (interleaved by the
+	// scheduler at every lock, storage, rules and Sign yield point), one of them carrying slashable or exit
+	// domains among harmless ones: a verdict must not travel from one request to another.
+	if len(rc.Viol) == 0 && ch.Pick(3, 0) == 2 {
+		// With one processor every object pool and per-processor cache is shared by all requests.
+		prevProcs := runtime.GOMAXPROCS([]int{1, 1, 4}[ch.Pick(3, 0)])
+		defer runtime.GOMAXPROCS(prevProcs)
+		k := 2 + ch.Pick(2, 0)
+		ops := make([]*Op, k)
+		res := make([]*OpResult, k)
+		classes := make([][]string, k)
+		for q := range ops {
+			o := &Op{Kind: "multi", Client: "client1", IP: []string{"", "8.8.8.8"}[ch.Pick(2, 0)]}
+			for j, n := 0, 2+ch.Pick(3, 0); j < n; j++ {
+				uniq++
+				d, cl := domClass()
+				if q > 0 && ch.Pick(3, 0) > 0 {
+					d, cl = MkDomain([4]byte{7, 0, 0, 0}, uniq), "other-spec" // the other requests are mostly harmless
+				}
+				e := GenEntry(q*5+j, d, uniq)
+				e.ByKey = ch.Pick(3, 0) == 1
+				o.Entries = append(o.Entries, e)
+				classes[q] = append(classes[q], cl)
+			}
+			ops[q] = o
+		}
+		for q := range ops {
+			q := q
+			s.Spawn(fmt.Sprintf("multi%d", q), inst, func(t *Task) { res[q] = ops[q].Exec(inst) })
+		}
+		out := s.Run()
+		rc.Stats.Inc("concurrent_multisign_phases", 1)
+		if out == "done" {
+			for q, o := range ops {
+				if res[q] == nil {
+					continue
+				}
+				rc.Logf("concurrent %s %v -> %v", o, classes[q], res[q].States)
+				Monitor(rc, ledger, pop, o, res[q], nOps+q, false)
+				for j := range o.Entries {
+					if res[q].OK(j) && domType(o.Entries[j].Domain) == DomExit && !listed(o.IP) {
+						rc.Violate("C05", "exit-signed-for-unlisted-source", fmt.Sprintf("%s position %d (concurrent with other requests): voluntary-exit domain signed for source address %q, administrator list %q", o, j, o.IP, admin), nOps+q)
+					}
+				}
+			}
+		}
+		desc = append(desc, fmt.Sprintf("%d concurrent multisign requests", k))
 	}
 	rc.Sample = map[string]any{"admin_ips": admin, "rules_faults": faulty, "ops": desc}
 }
